@@ -314,6 +314,44 @@ def run(ctx):
     for o in sub02.obligations:
         if o["rule"] in ("C02-R1", "C02-R1p", "C02-R2", "C02-R3"):
             res.check(o["ok"], "C20-R6", "decode-bounds:" + o["key"], o["loc"], o["detail"])
+    # ---- R7 the source of a builder's copy is still there when it is read: a caller may hand a payload its own bytes back
+    # (`p.setData(p.getData(), n)` with n <= the current length — resize() to a smaller or equal size never reallocates), so between the entry
+    # of a function that copies from a pointer parameter into the payload buffer and that copy, the buffer is not given new storage for any
+    # reason but growth: no shrink_to_fit, no swap with / move-assignment from another vector
+    res.rule("C20-R7", "builders read their source before the buffer can move for a reason other than growth: no shrink_to_fit / swap / whole-vector "
+                        "assignment of the payload buffer in front of a raw copy from a pointer parameter")
+    n7 = 0
+    from cmpverif.facts import reads, walk
+    for f in sorted(fb.all_functions(), key=lambda z: (z.name, z.key)):
+        if f.body is None or not f.rec or not f.cfg_raw or not f.raw.get("inrepo"):
+            continue
+        ptrp = {q["decl"] for q in f.params if q["t"].get("k") == "ptr"}
+        if not ptrp:
+            continue
+        copies = [c for c in f.calls() if facts.copy_args(c) and ptrp & reads(facts.copy_args(c)[1]) and
+                  any(fb.is_payload_buffer(x.get("obj", {})) for x in walk(facts.copy_args(c)[0]) if x.get("k") == "call" and (x.get("callee") or {}).get("nm") == "data")]
+        if not copies:
+            continue
+        n7 += 1
+        cfg = f.cfg
+        bad7 = None
+        for x in f.calls():
+            nm = (x.get("callee") or {}).get("nm")
+            if nm in ("shrink_to_fit", "swap", "operator=") and fb.is_payload_buffer(x.get("obj", {})):
+                for c in copies:
+                    bx, bc = cfg.block_for(x), cfg.block_for(c)
+                    before = (bx == bc and cfg.pos_of.get(x["id"], 0) < cfg.pos_of.get(c["id"], 0)) or (bx != bc and not cfg.dominates(bc, bx))
+                    if before:
+                        bad7 = (x, nm)
+        key7 = "source-read-in-place:%s" % f.name.replace("ASAM::CMP::", "")
+        if key7 in {o["key"] for o in res.obligations if o["rule"] == "C20-R7"}:
+            continue
+        res.check(bad7 is None, "C20-R7", key7, (bad7[0].get("loc") if bad7 else f.loc),
+                  "the payload buffer keeps its storage (growth aside) until the caller's bytes have been copied",
+                  "%s gives the payload buffer new storage (%s) before it copies from its pointer parameter: a caller that hands the payload its own bytes "
+                  "back (setData(getData(), n)) has them read from the released block — whatever the allocator left there ends up in the payload and in "
+                  "every frame encoded from it" % (f.name, bad7[1] if bad7 else ""))
+    res.floor("C20-R7", 3, n7)
     res.floor("C20-R6", 60)
     res.floor("C20-R1", 25, n1)
     res.floor("C20-R2", 4, n2)
